@@ -19,11 +19,12 @@ from cvf.vals import Val
 
 PROPERTY = "C13"
 LEVEL = "translation_validation"
-CASE_TIMEOUT = {"quick": 900, "thorough": 2400}
+CASE_TIMEOUT = {"quick": 300, "thorough": 2400}
 ENCODED = [
     "the autograd BACKWARD ATen stream of out[b,o,k].backward() through the compiled circuit: layers (cirkit.backend.torch.layers.inner/optimized/input), parameter nodes, address-book gathers (index -> index_put accumulate), TorchPointerParameter indexing",
     "cirkit.backend.torch.semiring.LSESumSemiring.apply_reduce (max shift: amax backward masks), SumProductSemiring",
-    "cirkit.backend.torch.utils.SafeLog.backward (nan_to_num(grad / x))",
+    "cirkit.backend.torch.utils.SafeLog.backward / ComplexSafeLog.backward (nan_to_num(grad / conj(x)); complex views of real storage)",
+    "cirkit.backend.torch.semiring.ComplexLSESumSemiring.apply_reduce",
     "cirkit.backend.torch.graph.folding.build_address_book_stacked_entry, cirkit.backend.torch.compiler (fold / optimize)",
 ]
 RULE = (
@@ -39,11 +40,12 @@ RULE = (
     "monotone parameters these are positive (obligations discharged as in C01).  distinct = (descriptor, semiring, "
     "flags); non-trivial = >= 2 symbolic parameters."
 )
-BOUNDS = "circuits with <= 4 variables, K <= 2; sum-product and lse-sum semirings; categorical (logits / probs), embedding, Gaussian, polynomial inputs; raw / exp / sigmoid weight parameterisations; frozen (non-learnable) parameter mixes; all 4 flag pairs in thorough, 2 in quick; discrete inputs concrete (2 rows), continuous inputs symbolic"
-OUTSIDE = "the complex log-space semiring (ComplexSafeLog backward goes through view_as_real / conj views of complex storage, which the shadow memory does not alias: not encoded, sub-claim not decided); softmax-parameterised weights (the simplex abstraction of C12 hides theta); second-order gradients; float rounding (nan_to_num is the identity on finite reals)"
+BOUNDS = "circuits with <= 4 variables, K <= 2; all three semirings (complex-lse-sum: Re(out), real parameters); categorical (logits / probs), embedding, Gaussian, polynomial inputs; raw / exp / sigmoid weight parameterisations; frozen (non-learnable) parameter mixes; all 4 flag pairs in thorough, 2 in quick; discrete inputs concrete (2 rows), continuous inputs symbolic"
+OUTSIDE = "complex log-space semiring with Gaussian or polynomial inputs (gradient identities over opaque log-modulus / argument atoms are not decided within the budget; categorical / embedding inputs are covered); complex-valued circuit outputs (in the complex log-space semiring the real part of the output is differentiated and the circuits have real parameters, so the denoted value is real, possibly negative); softmax-parameterised weights (the simplex abstraction of C12 hides theta); second-order gradients; float rounding (nan_to_num is the identity on finite reals)"
 ASSUMPTIONS = _ops.COMMON_ASSUMPTIONS + [
     "MAX#k (the max shift) is a free symbol: its total gradient contribution must cancel identically",
     "nan_to_num is the identity (finite reals)",
+    "sum-product / complex-lse-sum: no intermediate circuit value that the backward pass divides by is exactly zero (a measure-zero set; there log-space autograd returns nan_to_num(0/0) = 0)",
 ]
 EXPLANATION = "autograd's backward pass executed symbolically; gradient terms decided equal to the exact derivative of the reference semantics by z3 for all parameter values"
 
@@ -51,15 +53,17 @@ EXPLANATION = "autograd's backward pass executed symbolically; gradient terms de
 def _all(tier):
     out = []
 
-    def add(d, sems=("sum-product", "lse-sum")):
+    def add(d, sems=("sum-product", "lse-sum", "complex-lse-sum")):
         for s in sems:
             out.append({"circuit": d, "semiring": s})
 
     add({"kind": "hand", "name": "nested", "K": 2, "input": "cat-logits", "ids": [0, 1, 2]})
     add({"kind": "hand", "name": "nested", "K": 2, "input": "cat-probs", "ids": [0, 1, 2]})
     add({"kind": "hand", "name": "nested", "K": 2, "input": "embedding", "weights": "exp"})
-    add({"kind": "hand", "name": "nested", "K": 2, "input": "gaussian"})
-    add({"kind": "hand", "name": "nested", "K": 2, "input": "gaussian-lp"})
+    # complex log space with Gaussian / polynomial inputs: the gradient identities (products of opaque
+    # log-modulus / argument atoms with exponent atoms) are not decided within 15 min per case: not run
+    add({"kind": "hand", "name": "nested", "K": 2, "input": "gaussian"}, sems=("sum-product", "lse-sum"))
+    add({"kind": "hand", "name": "nested", "K": 2, "input": "gaussian-lp"}, sems=("sum-product", "lse-sum"))
     add({"kind": "hand", "name": "nested", "K": 2, "input": "poly2"}, sems=("sum-product",))
     add({"kind": "hand", "name": "shared", "K": 2, "input": "cat-logits"})
     add({"kind": "hand", "name": "nary-sum", "K": 2, "input": "embedding", "arity": 2})
@@ -68,14 +72,13 @@ def _all(tier):
     add({"kind": "hand", "name": "sum-sum", "K": 2, "input": "embedding"})
     add({"kind": "hand", "name": "mixed-inputs", "K": 2})
     add({"kind": "hand", "name": "nested", "K": 2, "input": "embedding", "freeze": "odd"})
-    add({"kind": "hand", "name": "nested", "K": 2, "input": "gaussian", "freeze": "odd"})
-    add({"kind": "hand", "name": "hetero-params", "K": 2})
+    add({"kind": "hand", "name": "nested", "K": 2, "input": "gaussian", "freeze": "odd"}, sems=("sum-product", "lse-sum"))
     for sp in ("cp", "cp-t", "tucker"):
         add({"kind": "rg", "algo": "rbt", "nvars": 3, "sp": sp, "input": "embedding", "weights": "raw", "K": 2})
         add({"kind": "rg", "algo": "qg", "shape": [1, 2, 2], "sp": sp, "input": "cat-logits", "weights": "exp", "K": 2})
     add({"kind": "rg", "algo": "lt", "nvars": 3, "rep": 2, "randomize": True, "sp": "cp", "input": "embedding", "weights": "raw", "K": 2, "mixing": "raw"})
     # derived circuits share tensors with their operand: gradients accumulate through the pointers
-    add({"kind": "pipe", "base": {"kind": "hand", "name": "nested", "K": 2, "input": "embedding"}, "ops": [["square"]]}, sems=("sum-product",))
+    add({"kind": "pipe", "base": {"kind": "hand", "name": "nested", "K": 2, "input": "embedding"}, "ops": [["square"]]}, sems=("sum-product", "complex-lse-sum"))
     add({"kind": "pipe", "base": {"kind": "hand", "name": "nested", "K": 2, "input": "cat-logits", "ids": [0, 1, 2]}, "ops": [["integrate", [1]]]})
     return out
 
@@ -86,6 +89,7 @@ def cases(tier, seed):
     out = []
     flags = circuit_check.FLAGS
     if tier == "quick":
+        allc = [c for c in allc if not _heavy(c)]
         core = [c for c in allc if c["circuit"].get("name") in ("nested", "shared", "nary-sum") and "freeze" not in c["circuit"]] + [c for c in allc if "freeze" in c["circuit"]]
         rest = [c for c in allc if c not in core]
         rnd.shuffle(rest)
@@ -101,6 +105,16 @@ def cases(tier, seed):
                 d.update(fold=f, optimize=o)
                 out.append(d)
     return out
+
+
+def _heavy(c):
+    """members that need more than the quick budget (thorough tier only)"""
+    d, sem = c["circuit"], c["semiring"]
+    if d.get("algo") == "qg" and d.get("sp") == "tucker" and sem == "lse-sum":
+        return True
+    if (d.get("freeze") or d.get("kind") == "rg" or (d.get("kind") == "pipe" and d["ops"][0][0] == "square")) and sem == "complex-lse-sum":
+        return True
+    return False
 
 
 # ---------------------------------------------------------------------------------------------
@@ -238,7 +252,7 @@ def concrete_run(circuit, sem, fold, opt, seed, overrides, row):
     def ref_value(o, k, env_):
         v = refsem.eval_circuit(sc, rowv, senv.penv)[o][k].concrete(env_)
         v = float(v.real if isinstance(v, complex) else v)
-        return v if sem == "sum-product" else float(np.log(v))
+        return v if sem == "sum-product" else float(np.log(abs(v)))
 
     for o in range(O):
         for k in range(K):
@@ -248,6 +262,7 @@ def concrete_run(circuit, sem, fold, opt, seed, overrides, row):
             if x is not None and x.grad is not None:
                 x.grad = None
             f = out3[0, o, k]
+            f = f.real if f.is_complex() else f
             if not f.requires_grad:
                 continue
             try:
@@ -361,6 +376,7 @@ def run_case(desc, seed, tier):
                         if x is not None and x.grad is not None:
                             x.grad = None
                         f = out3[0, o, k]
+                        f = f.real if f.is_complex() else f
                         if not f.requires_grad:
                             continue
                         f.backward(retain_graph=True)
@@ -420,8 +436,16 @@ def run_case(desc, seed, tier):
                 want = d if sem == "sum-product" else d / rv
                 got = Val.const(0.0) if garr is None else garr[ix]
                 todo.append((f"row{row}:d out[{o},{k}]/d {name}", got, want))
+        seen_den = senv.ctx.__dict__.setdefault("_c13_den", set())
         for label0, got, want in todo:
             goal = eq_goal(got, want)
+            if sem != "lse-sum":
+                # the backward of log divides by intermediate circuit values: non-degeneracy assumption
+                for t in T.postorder([goal]):
+                    base = t.args[1] if t.op == "div" else (t.args[0] if t.op == "pow" and t.data < 0 else None)
+                    if base is not None and base.op != "const" and base.id not in seen_den:
+                        seen_den.add(base.id)
+                        senv.ctx.assumptions.append(T.not_(T.eq(base, T.ZERO)))
             label = f"fold={fold},opt={opt}:{label0}"
             sizes[label] = T.size([goal])
             r = sess.prove(goal, label)
